@@ -75,6 +75,17 @@ def register(J):
                           "(logging contract; its behaviour is the subject of the bounded jobs wrappers.fn5/6.*)"],
                  statement="C06/C12: econf_readConfig is econf_readConfigWithCallback with no callback and no data, "
                            "every other argument unchanged, result and object handed on."))
+    J.append(Job("errloc.last_scanned_file", ["C13", "C10"], "harness/errloc.c", sources=["lib/getfilecontents.c"],
+                 stubs=["stubs/strdup_log.c"], contracts=["contracts/errloc.h"], enforce="last_scanned_file",
+                 defines=["-DPART_LSF=1"], unwind=8, tier="T1", timeout=300, mem_gb=4,
+                 expect=[r"last_scanned_file\.postcondition"], model="M-packed abstract strdup with a ghost log",
+                 statement="C13: the error-location accessor hands out a copy of the recorded file name and the recorded "
+                           "line number; the record is not written (frame)."))
+    J.append(Job("errloc.econf_errLocation", ["C13"], "harness/errloc.c", sources=["lib/econf_error.c"],
+                 contracts=["contracts/errloc.h"], enforce="econf_errLocation", replace=["last_scanned_file"],
+                 defines=["-DPART_ERRLOC=1"], unwind=8, tier="T1", timeout=300, mem_gb=4,
+                 expect=[r"last_scanned_file\.precondition"],
+                 statement="C13: econf_errLocation is the accessor with the caller's out-parameters."))
     for n, fn in enumerate(["econf_requireOwner", "econf_requireGroup", "econf_requirePermissions",
                             "econf_followSymlinks", "econf_reset_security_settings"], 1):
         J.append(Job("security." + fn, ["C16", "C18"], "harness/security.c", sources=["lib/libeconf.c"],
